@@ -205,6 +205,46 @@ def two_body(res, tier):
                 viol(res, "two-body-exactness", integrator=name, opts=opts, direction=sgn, error=err)
 
 
+def tolerance_sweep(res):
+    """adaptive schemes against the analytic two-body orbit over several eccentric orbits (the step-size controller is at work the whole
+    time): the error is within the class of the tolerance and never grows when the tolerance is tightened"""
+    G, m0, m1 = 1.0, 1.0, 3e-3
+    el = dict(a=1.0, e=0.7, inc=0.4, Omega=0.7, omega=1.1)
+    M0 = 0.3
+    n = math.sqrt(G * (m0 + m1) / el["a"] ** 3)
+    sweeps = [("ias15", {"adaptive_mode": am}, "epsilon", ((1e-5, 1e-4), (1e-7, 1e-6), (1e-9, 1e-9), (1e-11, 1e-9), (1e-13, 1e-9)) if am >= 2 else ((1e-5, 1e-3), (1e-7, 1e-5), (1e-9, 1e-8), (1e-10, 1e-8)))
+              for am in (2, 3, 0, 1)] + [("bs", {}, "eps", ((1e-5, 1e-2), (1e-8, 1e-5), (1e-11, 1e-8)))]
+    for sgn in (1, -1):
+        T = sgn * 3.3 * 2 * math.pi / n
+        rel = kepler_state(G * (m0 + m1), el["a"], el["e"], el["inc"], el["Omega"], el["omega"], M0 + n * T)
+        for name, opts, key, levels in sweeps:
+            errs = []
+            for tol, cls in levels:
+                sim = rebound.Simulation()
+                sim.add(m=m0)
+                sim.add(m=m1, M=M0, **el)
+                o = dict(opts)
+                if key == "epsilon":
+                    o["epsilon"] = tol
+                else:
+                    o["eps_rel"] = o["eps_abs"] = tol
+                set_opts(sim, name, o)
+                sim.dt = sgn * 0.01
+                sim.integrate(T)
+                p, st = sim.particles[1], sim.particles[0]
+                got = (p.x - st.x, p.y - st.y, p.z - st.z, p.vx - st.vx, p.vy - st.vy, p.vz - st.vz)
+                errs.append(max(abs(a - b) for a, b in zip(got, rel)))
+                res["order_runs"] += 1
+            res["observed"]["tolerance sweep %s %s dir%+d" % (name, opts, sgn)] = errs
+            for k, (tol, cls) in enumerate(levels):
+                if not errs[k] <= cls:
+                    viol(res, "adaptive-accuracy", integrator=name, opts=opts, direction=sgn, tolerance=tol, error=errs[k], accuracy_class=cls, sweep=errs)
+                    break
+                if k and not errs[k] <= max(3.0 * errs[k - 1], 1e-10):
+                    viol(res, "adaptive-accuracy", integrator=name, opts=opts, direction=sgn, tolerance=tol, error=errs[k], error_at_looser_tolerance=errs[k - 1], sweep=errs)
+                    break
+
+
 def measure(res, cfgs, masses, s0, refs, T, tag, dirs, accbound=5e-4, setup=None, frame=None):
     """error at three step sizes against the reference; observed order >= advertised - 0.7 above the rounding floor"""
     nb = len(masses)
@@ -661,6 +701,7 @@ def main():
     valid_rows(res, valid)
     switch_runs(res, hists, tier, seed)
     two_body(res, tier)
+    tolerance_sweep(res)
     order_runs(res, adv, tier, valid, seed)
     encounter_runs(res, tier)
     sei_runs(res)
